@@ -287,8 +287,8 @@ PROPS = {
                 "probability 20%): PARSE (implementation tree incl. every range, offset and diagnostic vs the Lean parser model), "
                 "SPECPARSE (implementation tree vs the independently written grammar derivation Spec/Grammar.lean with ranges placed "
                 "by the rule 'own tokens plus leading comments'). " + TEXT_RULE,
-        "unproved_parts": ["PROVED for expressions: expression_conforms (model = specification on every derivable expression, any token array / "
-                           "position / state). parse_conforms for type expressions, statements, declarations and the program "
+        "unproved_parts": ["PROVED for expressions, type expressions and statements: expression_conforms, type_expression_conforms, statement_conforms "
+                           "(model = specification on everything derivable, any token array / position / state). parse_conforms for declarations and the program "
                            "(Parse.parse toks = relativize (Grammar.parseAbs toks) for every valid token sequence) is compared on every run "
                            "(SPECPARSE: implementation = specification, PARSE: implementation = model), not yet a theorem"],
     },
